@@ -32,6 +32,14 @@ def snap_obj(v, depth=3):
         if hasattr(v, "cache_info"):
             extra = repr(v.cache_info())
         return f"fn:{getattr(v, '__module__', '?')}.{v.__qualname__}{extra}"
+    if type(v).__name__ in ("lock", "RLock", "SchedLock", "Semaphore", "BoundedSemaphore", "Condition", "Event"):
+        # synchronisation objects have no __dict__; their state (locked / owner / count) is in the repr
+        import re as _re
+
+        if type(v).__name__ == "SchedLock":
+            return f"SchedLock(locked={v.owner is not None},count={v.count})"
+        r = _re.sub(r"0x[0-9a-fA-F]+|owner=\d+", "", repr(v))
+        return f"sync:{r}"
     if depth <= 0:
         return f"<{type(v).__name__}>"
     if isinstance(v, dict):
